@@ -174,8 +174,14 @@ class ModbusAsciiFramer(ModbusFramer):
             if valid:
                 if self._validate_unit_id(unit, single):
                     frame = self.getFrame()
-                    result = self.decoder.decode(frame)
+                    try:
+                        result = self.decoder.decode(frame)
+                    except Exception:
+                        # do not look at a frame that cannot be decoded again
+                        self.advanceFrame()
+                        raise
                     if result is None:
+                        self.advanceFrame()
                         raise ModbusIOException("Unable to decode response")
                     self.populateResult(result)
                     self.advanceFrame()
